@@ -7,6 +7,7 @@
 mod terms;
 mod o_lists;
 mod o_unify;
+mod o_solver;
 mod o_compare;
 mod o_listops;
 mod o_globals;
@@ -52,6 +53,8 @@ fn oracles() -> Vec<(&'static str, Enumerate, Check)> {
         ("c07_sym", o_mgu::enum_sym, o_mgu::check_sym),
         ("c08_resolve", o_mgu::enum_resolve, o_mgu::check_resolve),
         ("c09_program", o_unify::enum_anon_program, o_unify::check_anon_program),
+        ("c05_reask", o_solver::enum_reask, o_solver::check_reask),
+        ("c03_not", o_solver::enum_not, o_solver::check_not),
     ]
 }
 
